@@ -71,7 +71,7 @@ impl Space_ {
     fn make_plain(args: &Args) -> Vec<(String, Vec<u8>)> {
         let mut ev = Ev::new("C05");
         let mut v = vec![];
-        for m in crate::props::families::members(&["struct", "funcs", "locals", "names", "customs", "reach", "ctrl", "idshift", "leb"], args, &mut ev) {
+        for m in crate::props::families::members(&["struct", "funcs", "locals", "names", "customs", "reach", "ctrl", "idshift", "leb", "minimal"], args, &mut ev) {
             v.push((format!("{}:{}", m.family, m.coords), m.wasm));
         }
         for c in crate::props::census::cases(args, &mut ev) {
